@@ -233,6 +233,8 @@ def case(ctx, rng, idx, state):
                                          keys=("Ham",) + (("AA",) if has_AA else ()) + (("SS",) if has_SS else ()),
                                          centers=["random", "outside", "zero"][int(rng.integers(3))],
                                          spinor=True if has_SS else None)
+        system, hist = gen_systems.history_variant(rng, system, which=gen_systems.HISTORIES_NO_DISK[int(rng.integers(4))])
+        ctx.count(f"history_{hist}")
         pool = ["vel", "bc", "im", "dbc", "d3"] + (["spin", "dspin"] if has_SS else [])
     elif kind == "cubic":
         system = cubic_system(rng, state["pg"])
